@@ -6,7 +6,8 @@ from .. import corr
 STREAMS = ["plugins"]
 RULE = ("0..8 section plugins with random acyclic before/after graphs (plus constraints naming absent plugins, "
         "self-constraints, occasional cycles), required flags, digests returning None or a value; configs = subsets "
-        "of the sections ± unknown sections ± a logging section; entry points substituted in "
+        "of the sections ± unknown sections ± a logging section; section content = a mapping, or (30 %) None / 0 / False / "
+        "'' / [] / {} / a list / a string, handed to the digest by identity; entry points substituted in "
         "cobald.daemon.core.config.get_entrypoints; non-trivial = at least two plugins called and at least one "
         "constraint between installed plugins; distinct = distinct canonical case JSON")
 ASSUMPTIONS = ["the entrypoints API (substituted by generated objects with name/load()/extras)",
@@ -20,6 +21,14 @@ class FakeEntry:
 
     def load(self):
         return self._obj
+
+
+CONTENT_KINDS = ["none", "none", "zero", "false", "empty-str", "empty-list", "empty-map", "list", "str"]
+
+
+def content_of(kind, k):
+    return {"none": None, "zero": 0, "false": False, "empty-str": "", "empty-list": [], "empty-map": {},
+            "list": [k, 1], "str": "text of " + k}.get(kind, {"content-of": k})
 
 
 def gen_case(rng):
@@ -62,7 +71,10 @@ def gen_case(rng):
         cfg.append("logging")
     rng.shuffle(cfg)
     returns = [s for s in names if rng.random() < 0.5]
-    return {"plugins": plugins, "cfg": cfg, "returns": returns}
+    # what the section holds: mostly a mapping, sometimes nothing at all (`section:` with an empty
+    # body in YAML) or another falsy value - present is present
+    content = {s: rng.choice(CONTENT_KINDS) for s in cfg if s != "logging" and rng.random() < 0.3}
+    return {"plugins": plugins, "cfg": cfg, "returns": returns, "content": content}
 
 
 def impl(case):
@@ -90,7 +102,7 @@ def impl(case):
     finally:
         core.get_entrypoints = orig
     order = [p.section for p in plugins]
-    cfg = {k: ({"version": 1} if k == "logging" else {"content-of": k}) for k in case["cfg"]}
+    cfg = {k: ({"version": 1} if k == "logging" else content_of(case.get("content", {}).get(k), k)) for k in case["cfg"]}
     try:
         content = load_configuration(dict(cfg), plugins)
         outcome = {"kept": sorted(p.section for p in content)}
@@ -102,7 +114,7 @@ def impl(case):
         outcome = {"error": type(e).__name__}
         vals_ok = True
     return {"order": order, "outcome": outcome, "log": [l[0] for l in log],
-            "data_ok": all(l[1] == {"content-of": l[0]} for l in log) and vals_ok}
+            "data_ok": all(l[1] is cfg[l[0]] for l in log) and vals_ok}
 
 
 def line(case, o):
